@@ -82,9 +82,13 @@ def class_level_functions(repo):
     """{'Class.name': FunctionDef} of every static method and class method: `Class.name(...)` is interpreted (factories, helpers)"""
     out = {}
     for cn, c in repo.classes.items():
-        for mn, m in c.methods.items():
-            if m.is_static or m.is_classmethod:
-                out["%s.%s" % (cn, mn)] = m.node
+        for an in repo.ancestors(cn):            # nearest definition first; inherited factories are reachable through the subclass name
+            a = repo.classes.get(an)
+            if a is None:
+                continue
+            for mn, m in a.methods.items():
+                if m.is_static or m.is_classmethod:
+                    out.setdefault("%s.%s" % (cn, mn), m.node)
     return out
 
 
@@ -103,11 +107,15 @@ def run_concrete(stmts, env, events, notes, depth=0, workers=(), resolver=None, 
     def plain_env():
         return {k: v for k, v in env.items() if not isinstance(v, (Obj, Desc))}
 
-    def call_method(fdef, args, kwargs, cls=None):
+    def call_method(fdef, args, kwargs, cls=None, closure=False):
         if depth > 4:
             raise NotConst("call depth")
         params = [a.arg for a in fdef.args.args if a.arg not in ("self", "cls")]
-        sub = {k: v for k, v in env.items() if not isinstance(k, str) or "." in k or k[:1].isupper() or isinstance(v, ClsRef) or k.isupper()}
+        if closure:
+            sub = dict(env)         # a function defined inside the one being evaluated reads the enclosing locals
+            sub.pop("$return", None)
+        else:
+            sub = {k: v for k, v in env.items() if not isinstance(k, str) or "." in k or k[:1].isupper() or isinstance(v, ClsRef) or k.isupper() or k.startswith("$func:")}
         if cls is not None:
             sub["cls"] = cls
         defaults = fdef.args.defaults
@@ -120,6 +128,9 @@ def run_concrete(stmts, env, events, notes, depth=0, workers=(), resolver=None, 
             sub[p_] = a
         for k, v in kwargs.items():
             sub[k] = v
+        is_gen = any(isinstance(x, (ast.Yield, ast.YieldFrom)) for x in ast.walk(fdef))
+        if is_gen:
+            sub["$yield"] = []
         r = run_concrete(body_without_doc(fdef), sub, events, notes, depth + 1, workers, resolver, hooks, functions)
         for k, v in sub.items():
             if isinstance(k, str) and k.startswith("self."):
@@ -128,6 +139,8 @@ def run_concrete(stmts, env, events, notes, depth=0, workers=(), resolver=None, 
             raise _Raise(r)
         if r == "exit":
             raise _Raise("exit")
+        if is_gen:
+            return list(sub["$yield"])          # a generator function: what it yields, in order (it is consumed by a for loop at the call site)
         return sub.get("$return")
 
     def values(e):
@@ -204,7 +217,13 @@ def run_concrete(stmts, env, events, notes, depth=0, workers=(), resolver=None, 
                 if isinstance(r, Obj) and ("*", f.attr) in hooks:
                     h = hooks[("*", f.attr)]
                     return h(r, avals) if callable(h) else h
+                if isinstance(r, ClsRef):
+                    # a factory / helper called on a class the evaluator models, and not interpreted: what it builds is not in the trace
+                    _note("call of %s.%s not expanded" % (r.name, f.attr))
                 return Desc("%s.%s(%s)" % (recv, f.attr, ", ".join(args)))
+            if isinstance(f, ast.Name) and ("$func:" + f.id) in env and f.id not in workers:
+                avals, kvals = values(e)
+                return call_method(env["$func:" + f.id], avals, kvals, closure=True)
             if isinstance(f, ast.Name) and functions and f.id in functions and f.id not in workers:
                 avals, kvals = values(e)
                 return call_method(functions[f.id], avals, kvals)
@@ -224,6 +243,8 @@ def run_concrete(stmts, env, events, notes, depth=0, workers=(), resolver=None, 
                         return avals[2] if len(avals) == 3 else Desc(key_)
                 if f.id == "len" and len(avals) == 1 and isinstance(avals[0], Seq):
                     return avals[0].length
+                if f.id == "bool" and len(avals) == 1 and not kvals and not isinstance(avals[0], Desc):
+                    return truth(avals[0])
                 if f.id in ("divmod", "min", "max", "abs", "int", "range", "sum", "round", "bool") and not kvals and avals and all(
                         isinstance(a, (int, float, bool)) and not isinstance(a, Desc) for a in avals):
                     try:
@@ -235,7 +256,9 @@ def run_concrete(stmts, env, events, notes, depth=0, workers=(), resolver=None, 
                 if f.id == "len" and len(avals) == 1 and isinstance(avals[0], Ref):
                     return Desc("len(%r)" % avals[0])
                 if f.id == "enumerate" and avals and isinstance(avals[0], (list, tuple)):
-                    return list(enumerate(avals[0], *(avals[1:2])))
+                    st_ = avals[1] if len(avals) > 1 else kvals.get("start", 0)
+                    if isinstance(st_, int):
+                        return list(enumerate(avals[0], st_))
                 if f.id in ("list", "tuple") and len(avals) == 1 and isinstance(avals[0], (list, tuple)):
                     return list(avals[0])
                 if f.id in ("all", "any") and len(avals) == 1 and isinstance(avals[0], (list, tuple)) and not any(isinstance(x, Desc) for x in avals[0]):
@@ -293,27 +316,34 @@ def run_concrete(stmts, env, events, notes, depth=0, workers=(), resolver=None, 
         if isinstance(e, (ast.Tuple, ast.List)):
             out = [val(x) for x in e.elts]
             return tuple(out) if isinstance(e, ast.Tuple) else out
-        if isinstance(e, (ast.ListComp, ast.GeneratorExp)) and len(e.generators) == 1:
-            g = e.generators[0]
-            seq = val(g.iter)
-            if isinstance(seq, (list, tuple)):
-                out = []
-                saved = dict(env)
+        if isinstance(e, (ast.ListComp, ast.GeneratorExp)) and e.generators and not any(g.is_async for g in e.generators):
+            out = []
+            saved = dict(env)
+
+            def gen(k):
+                if k == len(e.generators):
+                    out.append(val(e.elt))
+                    return
+                g = e.generators[k]
+                seq = val(g.iter)
+                if not isinstance(seq, (list, tuple)):
+                    raise NotConst("iteration over %s" % U(g.iter)[:40])
                 for x in seq:
                     assign(g.target, x)
                     keep = True
                     for cnd in g.ifs:
                         t = val(cnd)
                         if isinstance(t, Desc):
-                            env.clear()
-                            env.update(saved)
                             raise NotConst("filter %s" % U(cnd))
-                        keep = keep and bool(t)
+                        keep = keep and truth(t)
                     if keep:
-                        out.append(val(e.elt))
+                        gen(k + 1)
+            try:
+                gen(0)
+            finally:
                 env.clear()
                 env.update(saved)
-                return out
+            return out
         if isinstance(e, ast.IfExp):
             t = val(e.test)
             if isinstance(t, Desc):
@@ -401,6 +431,12 @@ def run_concrete(stmts, env, events, notes, depth=0, workers=(), resolver=None, 
     try:
         for st in stmts:
             if isinstance(st, ast.Expr) and isinstance(st.value, ast.Constant) or isinstance(st, ast.Pass):
+                continue
+            if isinstance(st, ast.Expr) and isinstance(st.value, ast.Yield) and "$yield" in env:
+                try:
+                    env["$yield"].append(val(st.value.value) if st.value.value is not None else None)
+                except NotConst:
+                    env["$yield"].append(Desc(U(st.value.value)))
                 continue
             if isinstance(st, ast.Expr):
                 try:
@@ -536,7 +572,10 @@ def run_concrete(stmts, env, events, notes, depth=0, workers=(), resolver=None, 
                             cr.defaults[x.target.id] = Desc(U(x.value))
                 env[st.name] = cr
                 continue
-            if isinstance(st, (ast.Import, ast.ImportFrom, ast.FunctionDef, ast.AsyncFunctionDef)):
+            if isinstance(st, ast.FunctionDef):
+                env["$func:" + st.name] = st        # a local function: interpreted when it is called, with the enclosing locals in view
+                continue
+            if isinstance(st, (ast.Import, ast.ImportFrom, ast.AsyncFunctionDef)):
                 continue
             if isinstance(st, ast.With):
                 for item in st.items:
